@@ -16,8 +16,8 @@ def build(repo, findings):
     u.prelude('quoting/listing_spec.rs')
     fn = 'single_quote'
     f = al.item(r'^fn single_quote\(', fn).r1().r11()
-    f.resub(r"\b(\w+)\.replace\(('\\''), (\"[^\"]*\")\)", r'str_replace_char(\1, \2, \3)', 'R14', 'str::replace(char, &str) -> stub', count=None)
-    f.resub(r"std::format!\(\"'\{\}'\", (.*)\)\n", r'vx_fmt_single_quoted(\1.as_str())\n', 'R8', "format!(\"'{}'\", x) -> stub: x between two single quotes", count=None)
+    f.resub(r"\.replace\(('(?:\\.|[^'\\])'), (\"(?:[^\"\\]|\\.)*\")\)", r'.vx_replace_char(\1, \2)', 'R14', 'str::replace(char, &str) -> stub (method form, so chained calls keep their shape)', count=None)
+    f.resub(r"std::format!\(\s*\"'\{\}'\",\s*(.*\))\s*\)\n", r'vx_fmt_single_quoted(\1.as_str())\n', 'R8', "format!(\"'{}'\", x) -> stub: x between two single quotes", count=None, flags=16)
     f.sig(fn, ret='r', ensures=[C('C13 alias-body-re-reads-as-the-value', 'reads_as(r@, s@)')])
     f.at_body_start(fn, '''proof { reveal_strlit("'\\\\''"); assert("'\\\\''"@ =~= sq_esc()); lemma_sq_replaced_word(s@); }''')
     u.add(f)
